@@ -300,7 +300,7 @@ macro_rules! impl_derivatives {
             #[inline]
             fn sph_j1(&self) -> Self {
                 if self.re() < F::epsilon() {
-                    self.clone() / F::from(3.0).unwrap()
+                    (self.clone() - self * self * self / F::from(10.0).unwrap()) / F::from(3.0).unwrap()
                 } else {
                     let (s, c) = self.sin_cos();
                     (s - self * c) / (self * self)
